@@ -30,6 +30,8 @@ RULE = ("Hypothesis-generated TLS sessions over an in-memory duplex transport: T
         "non-trivial = a payload spanning more than one TLS record with chunking that is not record-aligned, or a "
         "truncation; distinct = distinct canonical JSON")
 ASSUMPTIONS = [
+    "the in-memory transport rejects overlapping send() calls with BusyResourceError, like every real byte stream, and a "
+    "send takes one loop cycle per 16 KiB",
     "explicit SSL contexts with OP_IGNORE_UNEXPECTED_EOF cleared (as anyio does for the contexts it creates itself)",
     "truncation = the transport's receive raises EndOfStream after the cut offset; bytes after it are dropped",
     "the phase of a cut is classified from what was observed (bytes actually dropped), not predicted",
